@@ -325,6 +325,8 @@ func runC11(c *Ctx) {
 	// ---- R11i / R11j
 	c.Rule("R11i", ruleTextPendingLowerBound, 3)
 	checkPendingLowerBound(c, "R11i")
+	c.Rule("R11k", ruleTextNoStaleRevisions, 1)
+	checkNoStaleRevisions(c, "R11k")
 	c.Rule("R11j", ruleTextDirRestored, 1)
 	checkDirRestored(c, "R11j")
 
